@@ -99,6 +99,22 @@ pub fn transcript_step(s: &mut Sess<LS, ()>, op: &Op, run: &Run) -> String {
             }
             out
         }
+        "parse" => {
+            // the printed form of (up to three) tracked terms, glued into one big term, read back by the
+            // crate's parser: the slots it returns are part of the transcript (a named slot is an index
+            // into the thread's own name table)
+            let n = s.tracked.len();
+            if n == 0 {
+                return "parse -".to_string();
+            }
+            let pick = |k: usize| s.tracked[(op.int(0) as usize + k * 7) % n].tm.clone();
+            let t = Tm::node("b", vec![], vec![(vec![], pick(0)), (vec![], Tm::node("b", vec![], vec![(vec![], pick(1)), (vec![], pick(2))]))]);
+            let text = to_re::<LS>(&t, &mut s.nm).to_string();
+            match RecExpr::<LS>::parse(&text) {
+                Ok(re) => format!("parse {text} -> {re:?}"),
+                Err(e) => format!("parse {text} -> error {e:?}"),
+            }
+        }
         "extract" => {
             let mut out = String::from("extract");
             let ex = Extractor::<LS, AstSize>::new(&s.eg, AstSize);
@@ -211,6 +227,13 @@ impl Check for ReproCheck {
             ops.push(op);
             if w.chance(1, 3) {
                 ops.push(Op::new("probe"));
+            }
+            {
+                // (own stream) printed terms read back by the parser
+                let mut pr = Rng::stream(seed ^ ops.len() as u64, "parse-step");
+                if pr.chance(1, 6) {
+                    ops.push(Op::new("parse").i(pr.below(1000) as i64));
+                }
             }
             if is_union && w.chance(1, 4) {
                 ops.push(Op::new("rewrite").i(1 + w.below(15) as i64));
